@@ -3,6 +3,8 @@
 use std::time::Duration;
 
 pub mod e1;
+pub mod e2;
+pub mod junos;
 pub mod ev;
 pub mod exec;
 pub mod explore;
@@ -35,6 +37,7 @@ pub fn dispatch(id: &str, tier: Tier, replay: Option<&str>, budget: Duration) ->
     }
     match id {
         "C05" | "C18" => e1::run(id, &mut report, budget),
+        "C01" | "C02" | "C03" => e2::run(id, &mut report, budget),
         _ => {
             eprintln!("unknown property {id}");
             return 2;
